@@ -1899,13 +1899,11 @@ theorem fmtImpl_dot_break (w indent : Nat) (e : Expr) (n : String)
 
 /-! ### `format_expr` = `protect_statement_start ∘ format_expr_impl` -/
 
-/-- the concrete syntax tree of `format_expr`'s result: a statement that starts with `-` gets
-    one extra pair of parentheses -/
+/-- the concrete syntax tree of `format_expr`'s result: a statement that starts with `-`, or with
+    `via` / `into` / `where` followed by a blank, gets one extra pair of parentheses -/
 def formatCST (t : Expr) (mw : Option Nat) : CST :=
   let c := fmtCST (mw.getD DEFAULT_MAX_COLUMNS) 0 t
-  match c.text with
-  | '-' :: _ => .paren [] c []
-  | _ => c
+  if protectDecide c.text then .paren [] c [] else c
 
 theorem formatCST_wraps (t : Expr) (mw : Option Nat) :
     Wraps (fmtCST (mw.getD DEFAULT_MAX_COLUMNS) 0 t) (formatCST t mw) := by
@@ -1924,14 +1922,9 @@ theorem formatCST_text (t : Expr) (h : Frag t) (mw : Option Nat) :
   apply String.toList_inj.mp
   simp only [ht, String.toList_ofList]
   split
-  · rename_i tl heq
-    simp only [heq, String.toList_append, CST.text, layChars, List.nil_append, ht]
+  · simp only [String.toList_append, CST.text, layChars, List.nil_append, ht]
     rfl
-  · rename_i hne
-    split
-    · rename_i tl heq
-      exact absurd heq (hne tl)
-    · exact ht.symm
+  · exact ht.symm
 
 /-- END TO END: what `format_expr` returns for a fragment tree is read back — PEG recogniser,
     then Pratt parser — to the tree, at every width -/
